@@ -208,6 +208,7 @@ def main(argv=None):
     ap.add_argument('--keep', action='store_true')
     ap.add_argument('--unit', action='append')
     ap.add_argument('--no-kani', action='store_true')
+    ap.add_argument('--no-enum', action='store_true')
     a = ap.parse_args(argv)
     prop = a.prop
     seed = int(os.environ.get('VERIF_SEED', '0') or 0)
@@ -217,7 +218,7 @@ def main(argv=None):
         from vx import replay
         return replay.run(a.replay)
 
-    if (a.unit or a.no_kani or os.environ.get('VERIF_REPO')) and not os.environ.get('VERIF_EVIDENCE_DIR'):
+    if (a.unit or a.no_kani or a.no_enum or os.environ.get('VERIF_REPO')) and not os.environ.get('VERIF_EVIDENCE_DIR'):
         # partial / development runs never overwrite the evidence of the registered check
         os.environ['VERIF_EVIDENCE_DIR'] = '/tmp/verif-dev-evidence'
         os.environ.setdefault('VERIF_REPLAY_DIR', '/tmp/verif-dev-replays')
@@ -237,7 +238,7 @@ def main(argv=None):
                 from kx import kani
                 kfut = ex.submit(kani.run_groups, prop, pdef['kani'], a.tier, scratch)
             efut = None
-            if pdef.get('enum'):
+            if pdef.get('enum') and not a.no_enum:
                 from kx import enumrun
                 efut = ex.submit(enumrun.run_groups, prop, pdef['enum'], a.tier, scratch)
             for f in futs:
